@@ -1,4 +1,67 @@
-(* theorems for C09 are being added (see SMP/) *)
+(* C09 - Sequence-dependent setup times are always paid, using the right matrix entry. *)
 From Coq Require Import List ZArith Bool.
-Theorem C09_placeholder : True. Proof. exact I. Qed.
-Print Assumptions C09_placeholder.
+From JSL Require Import Base.Res Base.ListX SM.Types SM.Util SM.Handler SM.Step SM.Inv SM.Example
+  SMP.Post SMP.PostApply SMP.Offers SMP.ClockStep.
+Import ListNotations.
+
+(* Every IDLE->SETUP transition that is applied (for any instance, oracle/seed, state): the setup time
+   is the matrix entry at (tool mounted BEFORE, tool of the operation) - its current value for a
+   stochastic entry -, the machine is blocked until exactly now + that time, the new tool is mounted,
+   the job moves from the pre-buffer into the machine and its operation is PROCESSING over
+   [now, now + setup]. Direction: setup_lookup (mc_setup mc) FROM TO. *)
+Theorem C09_setup_exact :
+  forall sigma i x tr m ms x',
+    tr_comp tr = CM m -> nth_error (s_machs x) m = Some ms -> m_st ms = MIdle ->
+    apply_transition sigma i x tr = Ok x' ->
+    exists j jb k oc mc sc sd,
+      tr_job tr = Some j /\ nth_error (s_jobs x) j = Some jb /\ first_not_done jb = Some k
+      /\ get_opcfg i j k = Ok oc /\ nth_error (i_machs i) m = Some mc
+      /\ setup_lookup (mc_setup mc) (m_tool ms) (oc_tool oc) = Some sc
+      /\ tc_read (s_sto x) sc = Ok sd
+      /\ (exists ms', nth_error (s_machs x') m = Some ms' /\ m_st ms' = MSetup
+            /\ m_occ ms' = Time (s_now x + sd)%Z /\ m_tool ms' = oc_tool oc
+            /\ b_store (m_in ms') = b_store (m_in ms) ++ [j] /\ m_out ms' = m_out ms
+            /\ b_store (m_pre ms') = remove_nat j (b_store (m_pre ms)) /\ m_post ms' = m_post ms)
+      /\ (exists jb', nth_error (s_jobs x') j = Some jb' /\ j_loc jb' = BIn m
+            /\ j_ops jb' = upd (j_ops jb) k (mkOp m (Time (s_now x)) (Time (s_now x + sd)%Z) OProc))
+      /\ s_now x' = s_now x.
+Proof.
+  intros sigma i x tr m ms x' Hc Hm Hst H.
+  destruct (apply_machine sigma i x tr m ms x' Hc Hm H) as [[_ [_ Hh]]|[[E _]|[[E _]|[E _]]]]; try congruence.
+  eapply post_idle_setup; eauto.
+Qed.
+Print Assumptions C09_setup_exact.
+
+(* the machine is unavailable to every other job meanwhile: a machine in SETUP accepts only SETUP->WORKING
+   (transition table), and offers never name a non-idle machine *)
+Theorem C09_setup_blocks :
+  forall b, is_valid_transition machine_table (NM MSetup) (NM b) = true -> b = MWorking.
+Proof. intros b H. destruct b; simpl in H; try discriminate; reflexivity. Qed.
+
+Theorem C09_offers_name_idle_machines :
+  forall i x jb j, is_action_possible i x jb = Ok true -> nth_error (s_jobs x) j = Some jb ->
+    exists k o ms, first_not_done jb = Some k /\ nth_error (j_ops jb) k = Some o
+      /\ nth_error (s_machs x) (o_mach o) = Some ms /\ m_st ms = MIdle /\ j_loc jb = BPre (o_mach o)
+      /\ is_job_running jb = false.
+Proof. exact machine_offers_spec. Qed.
+
+(* processing begins exactly when the setup time has elapsed, not before: SETUP->WORKING is created by
+   the timed-transition generator only when occupied_till <= now *)
+Theorem C09_work_not_before_setup_end :
+  forall i now m ms tr, timed_machine i now m ms = Ok (Some tr) -> m_st ms = MSetup ->
+    exists z, m_occ ms = Time z /\ (z <= now)%Z /\ tr_new tr = NM MWorking.
+Proof.
+  intros i now m ms tr H Hs. destruct (timed_machine_spec i now m ms tr H) as [[z [j [Ho [Hz [_ [_ [_ Hk]]]]]]]|[c [j [Hi _]]]].
+  - exists z. repeat split; auto. destruct Hk as [[_ K]|[[E _]|[E _]]]; congruence.
+  - congruence.
+Qed.
+Print Assumptions C09_work_not_before_setup_end.
+
+(* the mounted tool changes at no other kind of transition *)
+Theorem C09_tool_frame_setup_working :
+  forall sigma i x tr m ms x', nth_error (s_machs x) m = Some ms -> h_m_setup_working sigma i x tr m ms = Ok x' ->
+    exists ms', nth_error (s_machs x') m = Some ms' /\ m_tool ms' = m_tool ms.
+Proof.
+  intros. destruct (post_setup_working sigma i x tr m ms x' H H0) as [j [jb [k [oc [d [_ [_ [_ [_ [_ [Hm _]]]]]]]]]]].
+  eexists; split; eauto.
+Qed.
